@@ -40,6 +40,15 @@
 #include "alg_sig.h"
 #include "erasurecode_log.h"
 
+/* Verification hook: scheduling points for bounded interleaving exploration.
+ * Expands to nothing unless built with -DLIBERASURECODE_VERIF. */
+#ifdef LIBERASURECODE_VERIF
+void liberasurecode_verif_yield(int id);
+#define LIBERASURECODE_VERIF_YIELD(id) liberasurecode_verif_yield(id)
+#else
+#define LIBERASURECODE_VERIF_YIELD(id) do { } while (0)
+#endif
+
 /* =~=*=~==~=*=~==~=*=~= Supported EC backends =~=*=~==~=*=~==~=*=~==~=*=~== */
 
 /* EC backend references */
@@ -89,7 +98,9 @@ int next_backend_desc = 0;
 ec_backend_t liberasurecode_backend_instance_get_by_desc(int desc)
 {
     struct ec_backend *b = NULL;
+    LIBERASURECODE_VERIF_YIELD(1);
     SLIST_FOREACH(b, &active_instances, link) {
+        LIBERASURECODE_VERIF_YIELD(2);
         if (b->idesc == desc)
             break;
     }
@@ -126,6 +137,7 @@ int liberasurecode_backend_instance_register(ec_backend_t instance)
 
     rc = rwlock_wrlock(&active_instances_rwlock);
     if (rc == 0) {
+        LIBERASURECODE_VERIF_YIELD(7);
         SLIST_INSERT_HEAD(&active_instances, instance, link);
         desc = liberasurecode_backend_alloc_desc();
         if (desc <= 0)
@@ -152,6 +164,7 @@ int liberasurecode_backend_instance_unregister(ec_backend_t instance)
 
     rc = rwlock_wrlock(&active_instances_rwlock);
     if (rc == 0) {
+        LIBERASURECODE_VERIF_YIELD(8);
         SLIST_REMOVE(&active_instances, instance, ec_backend, link);
     }  else {
         goto exit;
@@ -313,6 +326,7 @@ int liberasurecode_instance_create(const ec_backend_id_t id,
     }
 
     /* Register instance and return a descriptor/instance id */
+    LIBERASURECODE_VERIF_YIELD(5);
     instance->idesc = liberasurecode_backend_instance_register(instance);
 
     return instance->idesc;
@@ -333,6 +347,7 @@ int liberasurecode_instance_destroy(int desc)
         return -EBACKENDNOTAVAIL;
 
     /* Call private exit() for the backend */
+    LIBERASURECODE_VERIF_YIELD(3);
     instance->common.ops->exit(instance->desc.backend_desc);
 
     /* dlclose() backend library */
@@ -341,6 +356,7 @@ int liberasurecode_instance_destroy(int desc)
     /* Remove instance from registry */
     rc = liberasurecode_backend_instance_unregister(instance);
     if (rc == 0) {
+        LIBERASURECODE_VERIF_YIELD(4);
         free(instance);
     }
 
@@ -447,6 +463,7 @@ int liberasurecode_encode(int desc,
         ret = -EBACKENDNOTAVAIL;
         goto out;
     }
+    LIBERASURECODE_VERIF_YIELD(6);
 
     k = instance->args.uargs.k;
     m = instance->args.uargs.m;
